@@ -17,6 +17,7 @@ import (
 	"path/filepath"
 	"reflect"
 	"regexp/syntax"
+	"strconv"
 	"strings"
 
 	"github.com/hattya/go.sh/ast"
@@ -153,7 +154,7 @@ func init() {
 		level: "model_checking",
 		procs: panicnilProcs,
 		rule: "every symbol string of the tier's alphabets/bounds and every character string ≤ 5 (quick) / 6 (thorough) over {a ' \" \\ $ { } ( ) ` # < newline blank}, each parsed from a string, a []byte, a one-byte-at-a-time io.Reader, a bufio.Reader and a custom io.RuneScanner, " +
-			"by ParseCommands and ParseCommand; the shorter strings additionally under 7 alias tables (self reference, 2- and 3-cycles, trailing blanks, operators, reserved words, newline, unterminated quote); everything under GODEBUG=panicnil=0 and =1; " +
+			"by ParseCommands and ParseCommand; the shorter strings additionally under 7 alias tables (self reference, 2- and 3-cycles, trailing blanks, operators, reserved words, newline, unterminated quote); every alias value of ≤ 3 (thorough 4) characters over {a blank newline ; ' # $ ( ` \\ | x} in 3 tables × 7 sources; everything under GODEBUG=panicnil=0 and =1; " +
 			"non-trivial = the source is not accepted (error paths are where the lexer bails out)",
 		assume: []string{"each case runs in a GOMAXPROCS=1 worker process; after the call the worker yields until the goroutines started by it are gone, so an asynchronous crash is attributed to its case",
 			"a blocked call shows as the Go runtime's deadlock abort or as the parent's no-progress watchdog; the schedule dimension of 'never blocks' is C06's"},
@@ -195,6 +196,33 @@ func init() {
 				if nt {
 					w.Count("distinct_nontrivial", 1)
 					w.Sample(map[string]string{"source": src})
+				}
+			})
+			// alias VALUE space: every value of ≤ 3 (thorough 4) characters over the shell's significant characters for
+			// one alias x (and a second alias y → "x " in front of it), used first, second and after an operator
+			nv := 3
+			if w.thorough() {
+				nv = 4
+			}
+			genRunes([]rune("a \n;'#$(`\\|x"), nv, func(rs []rune) {
+				if len(rs) == 0 || !w.Mine() || w.TimeUp() {
+					return
+				}
+				v := string(rs)
+				w.Announce("alias x=" + strconv.Quote(v))
+				w.Count("states", 1)
+				for _, tbl := range []map[string]string{{"x": v}, {"x": v, "y": "x "}, {"x": v + " ", "a": v}} {
+					for _, src := range []string{"x", "x a\n", "a; x", "y x\nx", "x x", "$(x)", "x <<E\nx\nE\n"} {
+						for _, k := range []string{"string", "runescanner"} {
+							c := c01Case{Src: src, Kind: k, Alias: tbl}
+							w.Count("evaluations", 1)
+							w.Count("alias_value_runs", 1)
+							w.Count("traces_validated_against_impl", 1)
+							if d := c01Judge(c); d != "" {
+								w.Violation("", c, fmt.Sprintf("ParseCommands(%q) with aliases %v: %s", src, tbl, d))
+							}
+						}
+					}
 				}
 			})
 		},
